@@ -605,7 +605,10 @@ pub fn scenario(rng: &mut Rng) -> String {
     let blk = *rng.pick(&["div", "p", "li", "blockquote", "address", "h1", "td", "button", "marquee", "object", "applet", "center", "dd"]);
     let k = rng.range(1, 10);
     let rep = |s: &str, n: usize| s.repeat(n);
-    match rng.below(61) {
+    match rng.below(63) {
+        // frameset while a (declarative-shadow-root) template is open in head or body: frameset-ok and the second stack entry
+        61 => format!("{}<template{}>{}<frameset><frame></frameset>{}", rng.pick_s(&["<head>", "", "<body>", "<head><title>t</title>", "<html><head>"]), rng.pick_s(&[" shadowrootmode=open", " shadowrootmode=closed", " shadowrootmode=x", ""]), rng.pick_s(&["", "<p>", " ", "x"]), rng.pick_s(&["", "</template>x", "</template><frameset>", "<noframes>"])),
+        62 => format!("<head><template shadowrootmode={}></template>{}<frameset>{}", rng.pick_s(&["open", "closed"]), rng.pick_s(&["", "</head>", "</head> ", "<title></title>"]), rng.pick_s(&["", "<frame>", "</frameset>x"])),
         // Noah's ark (4th identical formatting element drops the oldest from the list, which stays open) and what
         // the matching end tags then see: adoption agency step 1 on an element that is no longer in the list
         56 => format!("{}x{}y<p>z", rep(&format!("<{fmt}>"), k), rep(&format!("</{fmt}>"), k)),
